@@ -159,6 +159,7 @@ def run_csvpath(text, method="collect", policy=("collect",), delimiter=",", quot
     """
     p, tp = new_path(policy, delimiter, quotechar, print_default=print_default)
     lines = None
+    kept = []
     exc = None
     with warnings.catch_warnings():
         with sandbox.capture_stdout() as cap:
@@ -172,9 +173,11 @@ def run_csvpath(text, method="collect", policy=("collect",), delimiter=",", quot
                 elif method == "next":
                     p.parse(text)
                     lines = []
+                    kept = []  # the very list objects next() handed out (a caller may keep them: list(path.next()))
                     gen = p.next()
                     for l in gen:
                         lines.append(l[:])
+                        kept.append(l)
                         if steps is not None and len(lines) >= steps:
                             break
                 elif method == "fast_forward":
@@ -185,6 +188,8 @@ def run_csvpath(text, method="collect", policy=("collect",), delimiter=",", quot
             except Exception as e:  # noqa: BLE001
                 exc = e
     o = observe(p, tp, lines, exc, cap.text)
+    if method == "next":
+        o["next_objects_after_the_run"] = [list(l) for l in kept]
     o["metadata"] = jsonable(dict(p.metadata)) if p.metadata else {}
     return o
 
